@@ -6,8 +6,9 @@
       (`Init`, `Push`, `Pop`, `up`, `down`; `Less(i,j) = priority[i] > priority[j]`, no tie-break),
     * identity/validator_set.go `InitValidatorQueue`, `cacheActiveValidators`,
       `GetEndBlockUpdate` (pop loop, minimum self delegation, TopValidatorCount, malicious skip,
-      status writes, deletion of power <= 0 records, purge loop over the sorted `lastActive`
-      keys with the `height <= purge+2` guard, final sort by public key),
+      status writes, deletion of settled records without power, purge loop over the sorted
+      `lastActive` keys with the `height <= purge+2` guard and the `activeCount == 0` stop, final
+      sort by public key),
     * Tendermint v0.33 `types.ValidatorSet.UpdateWithChangeSet` preceded by
       `state.validateValidatorUpdates` (the acceptance rule the returned list has to pass).
 
@@ -131,6 +132,7 @@ structure Input where
   malicious : List Nat             -- keys of vs.maliciousValidators (set in BeginBlock)
   purge : List (Nat × Int)         -- purged_<addr> (deliver state)
   status : List (Nat × Status)     -- es__vss_<addr> (deliver state)
+  cur : List (Nat × Int) := []     -- power of the CURRENT v_<addr> record (deliver state, `vs.Get`)
   deriving Repr
 
 structure Output where
@@ -165,6 +167,24 @@ def findRec (recs : List Rec) (a : Nat) : Option Rec := recs.find? (fun r => r.a
 def eligible (inp : Input) (r : Rec) : Bool :=
   decide (r.power ≥ inp.minSelf) && !(inp.malicious.contains r.addr)
 
+/-- `settled`: the status read before this block's update says inactive, needs no update now, and
+    is more than two blocks old -/
+def settled (inp : Input) (a : Nat) (need : Bool) : Bool :=
+  match alookup a inp.status with
+  | none => false
+  | some s => !s.active && !need && decide (inp.height > s.height + 2)
+
+/-- the deletion test: no power in the record of the previous block, the current record exists and
+    has no power either (a stake of this block must not vanish), the validator did not vote in the
+    last commit, and its status is settled (nothing on its way into Tendermint's set: the purge
+    loop only finds validators that have a record) -/
+def deletable (inp : Input) (r : Rec) (need : Bool) : Bool :=
+  decide (r.power ≤ 0) &&
+  (match alookup r.addr inp.cur with
+    | none => false                                  -- `vs.Get` failed
+    | some p => decide (p ≤ 0)) &&
+  !(inp.lastActive.contains r.addr) && settled inp r.addr need
+
 /-- one iteration of `for vs.queue.Len() > 0` for the popped address -/
 def popStep (inp : Input) (st : Loop) (it : Item) : Loop :=
   match findRec inp.recs it.val with
@@ -179,7 +199,7 @@ def popStep (inp : Input) (st : Loop) (it : Item) : Loop :=
       elected := if upd then st.elected ++ [r] else st.elected
       nonTop := if upd then st.nonTop else r :: st.nonTop
       statusW := if need then st.statusW ++ [(r.addr, ⟨upd, inp.height⟩)] else st.statusW
-      deleted := if r.power ≤ 0 then st.deleted ++ [r.addr] else st.deleted }
+      deleted := if deletable inp r need then st.deleted ++ [r.addr] else st.deleted }
 
 /-- `sort.Strings(keysLA)` over the keys of the `lastActive` map: sorted, no duplicates -/
 def insKey (a : Nat) : List Nat → List Nat
@@ -214,9 +234,12 @@ def popOrder (inp : Input) : List Item :=
 
 def runLoop (inp : Input) : Loop := (popOrder inp).foldl (popStep inp) {}
 
-/-- the records purged in this block, in the order of the sorted `lastActive` keys -/
+/-- the records purged in this block, in the order of the sorted `lastActive` keys.
+    `if activeCount == 0 { break }`: without anybody elected the removals would empty the set, which
+    Tendermint refuses — the last set is kept until somebody qualifies -/
 def purged (inp : Input) : List Rec :=
-  (sortKeys inp.lastActive).foldl (purgeStep inp (runLoop inp).nonTop) []
+  if (runLoop inp).cnt = 0 then []
+  else (sortKeys inp.lastActive).foldl (purgeStep inp (runLoop inp).nonTop) []
 
 /-- `GetEndBlockUpdate` -/
 def elect (inp : Input) : Output :=
@@ -230,11 +253,10 @@ def elect (inp : Input) : Output :=
       purgeW := pr.map fun r => (r.addr, inp.height)
       activeCount := st.cnt }
 
-/-- `CheckMaliciousValidators` as far as the election is concerned: the map is emptied, and the
-    function returns before filling it while `lastHeight <= BlockVotesDiff`; afterwards it holds
-    the frozen suspicious-validator records plus the validators flagged in this BeginBlock -/
-def maliciousSet (height blockVotesDiff : Int) (frozen flagged : List Nat) : List Nat :=
-  if height ≤ blockVotesDiff then [] else frozen ++ flagged
+/-- `CheckMaliciousValidators` as far as the election is concerned: the map holds the frozen
+    suspicious-validator records (loaded before any early return) plus the validators flagged for
+    missed votes in this BeginBlock (none while `lastHeight <= BlockVotesDiff`) -/
+def maliciousSet (frozen flagged : List Nat) : List Nat := frozen ++ flagged
 
 /-! ## 3. Tendermint's acceptance rule -/
 
@@ -334,11 +356,12 @@ end TM
 
 /-! ## 4. Several blocks: the application and Tendermint together (the +2 delay) -/
 
-/-- what one block contributes to the hook besides the chain's own bookkeeping: the records of
-    the previous version (any change stake / unstake / slashing / deletion made to them), the
-    malicious set of the block, the staking options in force -/
+/-- what one block contributes: the `v_` records of the deliver state when EndBlock starts (what
+    BeginBlock and the block's transactions made of the committed ones: stakes, unstakes, the
+    postponed part of a slash, new validators), the malicious set of the block, the staking options
+    in force -/
 structure BlockIn where
-  recs : List Rec
+  after : List Rec
   malicious : List Nat
   minSelf : Int
   top : Int
@@ -347,7 +370,8 @@ structure BlockIn where
 /-- application + Tendermint between two blocks.  `next` is the height about to be executed;
     `vP`, `vC`, `vN` are the validator sets of blocks `next-1`, `next`, `next+1`: the members of
     `vP` are the `LastCommitInfo.Votes` of block `next`, and the updates returned at its end are
-    applied to `vN` to give the set of block `next+2`. -/
+    applied to `vN` to give the set of block `next+2`.  `recs` are the committed records (version
+    `next-1`), i.e. what the hook of block `next` reads through `GetVersioned`. -/
 structure Chain where
   next : Int
   vP : TM.VSet
@@ -355,6 +379,7 @@ structure Chain where
   vN : TM.VSet
   purge : List (Nat × Int)
   status : List (Nat × Status)
+  recs : List Rec
   deriving Repr, DecidableEq
 
 /-- Tendermint keys a change by the address of its public key (`addrOf` = SHA-256 prefix) -/
@@ -362,10 +387,15 @@ def tmChanges (addrOf : Nat → Nat) (ups : List Upd) : List TM.Chg :=
   ups.map fun u => ⟨addrOf u.pub, u.ktype, u.power⟩
 
 def inputOf (s : Chain) (b : BlockIn) : Input :=
-  ⟨s.next, b.minSelf, b.top, b.recs, s.vP.map (·.1), b.malicious, s.purge, s.status⟩
+  ⟨s.next, b.minSelf, b.top, s.recs, s.vP.map (·.1), b.malicious, s.purge, s.status,
+   b.after.map fun r => (r.addr, r.power)⟩
 
 def applyWrites {α : Type} (m : List (Nat × α)) (w : List (Nat × α)) : List (Nat × α) :=
   w.foldl (fun m p => upsert m p.1 p.2) m
+
+/-- the records committed by the block: the deliver state's minus the ones the hook deleted -/
+def recsAfter (b : BlockIn) (deleted : List Nat) : List Rec :=
+  b.after.filter fun r => !(deleted.contains r.addr)
 
 /-- one block: the hook runs, Tendermint applies the list (or halts) -/
 def step (addrOf : Nat → Nat) (s : Chain) (b : BlockIn) : Except TM.Err Chain :=
@@ -373,7 +403,8 @@ def step (addrOf : Nat → Nat) (s : Chain) (b : BlockIn) : Except TM.Err Chain 
   match TM.apply s.vN (tmChanges addrOf o.updates) with
   | .error e => .error e
   | .ok v => .ok { next := s.next + 1, vP := s.vC, vC := s.vN, vN := v
-                   purge := applyWrites s.purge o.purgeW, status := applyWrites s.status o.statusW }
+                   purge := applyWrites s.purge o.purgeW, status := applyWrites s.status o.statusW
+                   recs := recsAfter b o.deleted }
 
 def run (addrOf : Nat → Nat) : Chain → List BlockIn → Except TM.Err Chain
   | s, [] => .ok s
